@@ -159,7 +159,7 @@ Theorem C01_text_level_skeleton : forall fo C a defs B, wf_cut C ->
      (exists e, aget (S "element") (payload C x) = Some e) /\ (exists q, aget (S "charge") (payload C x) = Some q) /\
      (exists h, aget (S "hcount") (payload C x) = Some (VInt h)) /\ Hydrogens.is_H (payload C x) = false) ->
   exists st fd m1 fg1 m2 fg2,
-    CGV.Compose.TextCut.from_text fo (CGV.Compose.TextCut.cut_string a defs) = Ok st /\
+    CGV.Compose.TextCutDefs.from_text fo (CGV.Compose.TextCut.cut_string a defs) = Ok st /\
     Pipeline.st_mol st = B /\ Pipeline.st_dicts st = [fd] /\ Pipeline.is_all_atom st = true /\ templates_ok C fd /\
     resolve_disconnected fd (CGV.Compose.ComposeFlat.next_meta (Pipeline.st_mol st)) = Ok (m1, fg1) /\
     bonding_step true true (CGV.Compose.ComposeFlat.next_meta (Pipeline.st_mol st)) m1 fg1 = Ok (m2, fg2) /\
@@ -167,7 +167,7 @@ Theorem C01_text_level_skeleton : forall fo C a defs B, wf_cut C ->
 Proof. exact CGV.Compose.TextCut.text_level_skeleton. Qed.
 (** the fragment block alone: the dictionary read from "{#n1=t1,...}" is a templates_ok dictionary *)
 Theorem C01_text_templates_ok : forall fo C defs, defs <> [] -> CGV.Compose.TextCut.defs_ok fo C defs ->
-  exists fd, CGV.Compose.TextCut.read_fragments_text fo (Dialect.DriverFaults.block_of (CGV.Compose.TextCut.frag_body defs)) true = Ok fd /\
+  exists fd, CGV.Compose.TextCutDefs.read_fragments_text fo (Dialect.DriverFaults.block_of (CGV.Compose.TextCut.frag_body defs)) true = Ok fd /\
              templates_ok C fd.
 Proof. exact CGV.Compose.TextCut.text_templates_ok. Qed.
 Theorem C01_text_defs_test_sound : forall fo C defs, CGV.Compose.TextCut.defs_okb fo C defs = true -> CGV.Compose.TextCut.defs_ok fo C defs.
@@ -180,7 +180,7 @@ Definition C01_text_level_step := CGV.Compose.TextCut.text_level_step.
 Example C01_text_level_nonvacuous :
   to_string CGV.Compose.TextCutExamples.ea_string = "{[#A][#B][#C]}.{#A=O=C(C)[$a],#B=[$a]O[>b],#C=[<b]CC}"%string /\
   (exists st fd m1 fg1 m2 fg2,
-    CGV.Compose.TextCut.from_text CGV.Compose.TextCutExamples.fo0 CGV.Compose.TextCutExamples.ea_string = Ok st /\
+    CGV.Compose.TextCutDefs.from_text CGV.Compose.TextCutExamples.fo0 CGV.Compose.TextCutExamples.ea_string = Ok st /\
     Pipeline.st_dicts st = [fd] /\ Pipeline.is_all_atom st = true /\ templates_ok CGV.Compose.TextCutExamples.ea_cut fd /\
     resolve_disconnected fd (CGV.Compose.ComposeFlat.next_meta (Pipeline.st_mol st)) = Ok (m1, fg1) /\
     bonding_step true true (CGV.Compose.ComposeFlat.next_meta (Pipeline.st_mol st)) m1 fg1 = Ok (m2, fg2) /\
@@ -216,8 +216,8 @@ Theorem C01_text_returned_iso : forall fo C1 C2 a1 defs1 B1 a2 defs2 B2,
   CGV.Compose.OrderIndep.heavy_payload C1 -> CGV.Compose.OrderIndep.heavy_payload C2 ->
   CGV.Compose.TextIso.written fo C1 a1 defs1 B1 -> CGV.Compose.TextIso.written fo C2 a2 defs2 B2 ->
   exists st1 fd1 st2 fd2,
-    CGV.Compose.TextCut.from_text fo (CGV.Compose.TextCut.cut_string a1 defs1) = Ok st1 /\ Pipeline.st_dicts st1 = [fd1] /\
-    CGV.Compose.TextCut.from_text fo (CGV.Compose.TextCut.cut_string a2 defs2) = Ok st2 /\ Pipeline.st_dicts st2 = [fd2] /\
+    CGV.Compose.TextCutDefs.from_text fo (CGV.Compose.TextCut.cut_string a1 defs1) = Ok st1 /\ Pipeline.st_dicts st1 = [fd1] /\
+    CGV.Compose.TextCutDefs.from_text fo (CGV.Compose.TextCut.cut_string a2 defs2) = Ok st2 /\ Pipeline.st_dicts st2 = [fd2] /\
     forall car1 car2 fo1 fo2 ms1 ms2,
       PipelineFull.resolve_step_full (Pipeline.st_legacy st1) (Pipeline.is_all_atom st1) fd1 (Pipeline.st_mol st1) (Some car1) = Ok fo1 ->
       PipelineFull.resolve_step_full (Pipeline.st_legacy st2) (Pipeline.is_all_atom st2) fd2 (Pipeline.st_mol st2) (Some car2) = Ok fo2 ->
